@@ -506,8 +506,10 @@ func (runInfo *runInfoStruct) makeCallArgs(rt reflect.Type, isRunVMFunction bool
 			runInfo.rv = nilValue
 			return nil, false
 		}
-		if runInfo.rv.Len() < numIn-indexIn {
-			runInfo.err = newStringError(callExpr, fmt.Sprintf("function wants %v arguments but received %v", numIn, numExprs+runInfo.rv.Len()-1))
+		// keep the spread list, runInfo.rv is overwritten by each converted element
+		spread := runInfo.rv
+		if spread.Len() < numIn-indexIn {
+			runInfo.err = newStringError(callExpr, fmt.Sprintf("function wants %v arguments but received %v", numIn, numExprs+spread.Len()-1))
 			runInfo.rv = nilValue
 			return nil, false
 		}
@@ -515,9 +517,9 @@ func (runInfo *runInfoStruct) makeCallArgs(rt reflect.Type, isRunVMFunction bool
 		indexSlice := 0
 		for indexInReal < numInReal {
 			if isRunVMFunction {
-				args = append(args, reflect.ValueOf(runInfo.rv.Index(indexSlice)))
+				args = append(args, reflect.ValueOf(spread.Index(indexSlice)))
 			} else {
-				runInfo.rv, runInfo.err = convertReflectValueToType(runInfo.rv.Index(indexSlice), rt.In(indexInReal))
+				runInfo.rv, runInfo.err = convertReflectValueToType(spread.Index(indexSlice), rt.In(indexInReal))
 				if runInfo.err != nil {
 					runInfo.err = newStringError(callExpr.SubExprs[indexExpr],
 						"function wants argument type "+rt.In(indexInReal).String()+" but received type "+runInfo.rv.Type().String())
